@@ -56,12 +56,15 @@ try:
     rc, out = demo()
     res["demo_fails_with_change"] = rc != 0
     res["demo_output_with_change"] = out[-1500:]
-    sh("git stash -q", cwd=WT)
+    # (git stash is shared between worktrees of one repository: never use it here)
+    rc, out = sh("git apply -R %s" % patch, cwd=WT)
+    assert rc == 0, out
     rc, out = demo()
     res["demo_passes_without_change"] = rc == 0
     if rc != 0:
         print("demo on clean tree:", out[-3000:])
-    sh("git stash pop -q", cwd=WT)
+    rc, out = sh("git apply %s" % patch, cwd=WT)
+    assert rc == 0, out
     confirmed = res["suite_passes_with_change"] and res["demo_fails_with_change"] and res["demo_passes_without_change"]
     res["confirmed"] = confirmed
     res["checks"] = {}
